@@ -752,3 +752,69 @@ def main(ctx):
                    mutations=[("t", 1)], mutate=pm_mut,
                    enabled_after=lambda hist, e: not (e[0] == "m" and hist and hist[-1][0] == "m"),
                    bounds=dict(pool="real ProcessPoolExecutor (fork)", task="reads a module-level table of the calling process"))
+
+    # ------------------------------------------------------------ long inputs in the classic adversarial orders
+    # a recursive quicksort is as deep as its partitions are uneven: already sorted, reversed, constant, organ-pipe,
+    # saw-tooth inputs and the permutations that make the first / middle / last / median-of-three pivot the extreme of
+    # every sub-range, at lengths around and beyond the interpreter's recursion limit (1000).  The statement covers
+    # "already sorted and reversed" inputs of every length: the sort must return, sorted, with the pairs kept together.
+    def killer(n, pivot):
+        """permutation of range(n) for which the pivot at position `pivot(lo, hi)` is the maximum of every sub-range the
+        sort visits (built backwards: place the values n-1, n-2, ... where that pivot will look)"""
+        a = [None] * n
+        idx = list(range(n))            # idx[k] = where the element currently at logical position k will sit
+        for v in range(n - 1, -1, -1):
+            m = len(idx)
+            p = pivot(0, m - 1)
+            a[idx[p]] = v
+            # the partition step swaps the pivot to the end of the range and drops it
+            idx[p] = idx[m - 1]
+            idx.pop()
+        return a
+
+    ORDERS = {
+        "sorted": lambda n: list(range(n)),
+        "reversed": lambda n: list(range(n))[::-1],
+        "constant": lambda n: [7] * n,
+        "two-values": lambda n: [i % 2 for i in range(n)],
+        "organ-pipe": lambda n: list(range(n // 2)) + list(range(n - n // 2))[::-1],
+        "saw-tooth": lambda n: [i % 17 for i in range(n)],
+        "middle-is-max": lambda n: killer(n, lambda lo, hi: (lo + hi) // 2),
+        "first-is-max": lambda n: killer(n, lambda lo, hi: lo),
+        "scrambled": lambda n: [(i * 7919 + 13) % n for i in range(n)],
+    }
+
+    def one_order(case, rec):
+        oname, n, kind = case
+        src = ORDERS[oname](n)
+        lim0 = _sys.getrecursionlimit()
+        try:
+            if kind == "list":
+                d = list(src)
+                algorithm.quicksort(d)
+                out, vals = list(d), None
+            elif kind == "array":
+                d = np.array(src, dtype="i8")
+                algorithm.quicksort(d)
+                out, vals = d.tolist(), None
+            else:
+                d = np.array(src, dtype="i8")
+                v = np.arange(n) * 2 + 1
+                algorithm.quicksort_keyvalue(d, v)
+                out, vals = d.tolist(), v.tolist()
+        except RecursionError:
+            return rec.fail(case, "%s input of %d elements (%s): RecursionError, the data are left half sorted" % (oname, n, kind))
+        except Exception as e:
+            return rec.fail(case, "%s input of %d elements (%s) raised %s: %s" % (oname, n, kind, type(e).__name__, e))
+        if _sys.getrecursionlimit() != lim0:
+            return rec.fail(case, "the recursion limit was changed from %d to %d" % (lim0, _sys.getrecursionlimit()))
+        if out != sorted(src):
+            return rec.fail(case, "%s input of %d elements (%s) is not sorted afterwards" % (oname, n, kind))
+        if vals is not None and any(src[(x - 1) // 2] != k for k, x in zip(out, vals)):
+            return rec.fail(case, "%s input of %d elements: key-value pairs were torn apart" % (oname, n))
+        rec.ok(case, outcome="order:%s" % oname, nontrivial=True, calls=1)
+
+    ounits = [(o, n, kind) for o in ORDERS for n in ctx.pick((999, 1000, 1500, 3000), (500, 999, 1000, 1001, 1500, 3000, 5000))
+              for kind in ("list", "array", "keyvalue")]
+    ctx.lattice("long-adversarial-orders", ounits, one_order, engine="environment",
+                bounds=dict(orders=sorted(ORDERS), lengths=sorted({u[1] for u in ounits}), containers=["list", "int64 array", "key-value arrays"]))
